@@ -29,6 +29,22 @@ Theorem C05_ifd_att_readback : forall e (s : ifd_state) (i ch v t : Z),
 Proof. exact ifd_att_readback. Qed.
 Print Assumptions C05_ifd_att_readback.
 
+(* per channel: the read-back of channel ch holds until the next acknowledged `A i ch _`; writes to the
+   other channels of board i in between do not matter *)
+Theorem C05_ifd_att_readback_chan : forall e (s : ifd_state) (i ch v t : Z),
+  ifd_reachable e s -> ifd_idle s = true -> 5 <= i < 21 -> 0 <= ch < 4 -> 0 <= v < 32 ->
+  ifd_is_tail t = true ->
+  let s1 := fst (ifd_run e s (ifd_line_att i ch v ++ [t])) in
+  snd (ifd_run e s (ifd_line_att i ch v ++ [t])) =
+    repeat OTrue (length (ifd_line_att i ch v)) ++ [OReply ifd_ack] /\
+  forall h t', ifd_quiet e (ifd_writes_att e i ch) s1 h -> ifd_idle (fst (ifd_run e s1 h)) = true ->
+    ifd_is_tail t' = true ->
+    exists brd, nth_error (b_att brd) (Z.to_nat ch) = Some (2 * v) /\ board_ok i brd /\
+      snd (ifd_run e (fst (ifd_run e s1 h)) (ifd_line_status i ++ [t'])) =
+      repeat OTrue (length (ifd_line_status i)) ++ [OReply (ifd_status_reply brd)].
+Proof. exact ifd_att_readback_chan. Qed.
+Print Assumptions C05_ifd_att_readback_chan.
+
 Theorem C05_ifd_bw_readback : forall e (s : ifd_state) (i v t : Z),
   ifd_reachable e s -> ifd_idle s = true -> 1 <= i <= 2 -> 0 <= v < 4 -> ifd_is_tail t = true ->
   let s1 := fst (ifd_run e s (ifd_line_bw i v ++ [t])) in
